@@ -312,3 +312,41 @@ def decide_bool(body, sym, names, spec, norm=None, label=None):
             if len(bad) >= 4:
                 break
     return not bad, {"assignments": n, "paths": len(ps), "counterexamples": bad}
+
+
+def implies(body, sym, want, lit):
+    """Decide "whenever the (loop-free, bool-returning) function returns `want`, the literal holds".
+    lit(atom) -> True if the atom IS the literal, False if it is its negation, None if unrelated; atoms are the
+    ('cmp', op, a, b) / ('opaque', text) forms of atom().  Returns (ok, detail)."""
+    try:
+        ps = paths(body, sym)
+    except NotComparisonOnly as e:
+        return False, "not a loop-free function: %s" % e
+
+    def holds(a, truth):
+        while a[0] == "not":
+            a, truth = a[1], not truth
+        if a[0] in ("const", "switch"):
+            return False
+        m = lit(a)
+        return m is not None and m == truth
+    bad = []
+    for conds, ret in ps:
+        if any(holds(a, t) for a, t in conds):
+            continue
+        if ret is None:
+            bad.append("path without a returned value")
+            continue
+        r = atom(ret)
+        neg = False
+        while r[0] == "not":
+            r, neg = r[1], not neg
+        if r[0] == "const":
+            v = (not r[1]) if neg else r[1]
+            if v == want:
+                bad.append({"returns": want, "conditions": [("%s" % (_atom_key(a) or a[0],), t) for a, t in conds][:8]})
+            continue
+        # returns want  <=>  r == (want xor neg)
+        if not holds(r, want != neg):
+            bad.append({"returns": render(ret)[:200], "conditions": [("%s" % (_atom_key(a) or a[0],), t) for a, t in conds][:8]})
+    return not bad, bad[:4]
